@@ -87,8 +87,18 @@ def gen_case(rng, tier):
         terms = [[l, small_int(rng, big)] for l in tl]
         const = small_int(rng)
         lb, ub = rand_bounds(rng, [t[1] for t in terms], const)
-        return {"kind": kind, "backend": backend, "vartype": "BINARY", "desc": desc, "terms": terms,
-                "lam": rng.choice(LAMS), "const": const, "lb": lb, "ub": ub}
+        c = {"kind": kind, "backend": backend, "vartype": "BINARY", "desc": desc, "terms": terms,
+             "lam": rng.choice(LAMS), "const": const, "lb": lb, "ub": ub}
+        r = rng.random()
+        if r < 0.3:
+            c["cross_zero"] = True
+            if rng.random() < 0.6:       # make lb_c > 0 likely
+                hi = sum(t[1] for t in terms if t[1] > 0) + const
+                if hi >= 2:
+                    c["lb"] = rng.randint(1, hi) ; c["ub"] = rng.choice([I64MAX, rng.randint(c["lb"], hi + 1)])
+        elif r < 0.45:
+            c["lam1"] = rng.choice(LAMS)
+        return c
     if kind in ('dqm_eq', 'dqm_ineq'):
         nv = rng.randint(1, 3)
         labels = gen.rand_labels(rng, nv)
@@ -267,8 +277,15 @@ def run_ineq(c):
     with warnings.catch_warnings():
         warnings.simplefilter("ignore")
         try:
-            slack = bqm.add_linear_inequality_constraint(terms, float(lam), "c0", constant=int(c["const"]),
-                                                         lb=int(c["lb"]), ub=int(c["ub"]))
+            kw = {}
+            if c.get("cross_zero"):
+                kw["cross_zero"] = True
+            lm = float(lam)
+            if "lam1" in c:
+                kw["penalization_method"] = "unbalanced"
+                lm = [float(lam), float(F(c["lam1"]))]
+            slack = bqm.add_linear_inequality_constraint(terms, lm, "c0", constant=int(c["const"]),
+                                                         lb=int(c["lb"]), ub=int(c["ub"]), **kw)
         except ValueError:
             raised = True
             slack = []
@@ -280,11 +297,14 @@ def run_ineq(c):
         py_fail = "non-integer slack coefficient"
     out = "ORaised" if raised else f"(OReturned {coq_zterms([(enc_label(v), int(s)) for v, s in slack], T)})"
     feats = {"kind": "ineq", "backend": c["backend"], "vartype": c["vartype"],
-             "outcome": "raised" if raised else ("slack" if slack else "none")}
+             "outcome": "raised" if raised else ("slack" if slack else "none"),
+             "cross_zero": bool(c.get("cross_zero")), "unbalanced": "lam1" in c}
     if c["vartype"] == 'SPIN':
         feats["ineq_on_spin_bqm"] = True
     coq = (f"(mkIneq {cnat(len(T))} {cnat(nx)} {c['vartype']} {coq_zterms(c['terms'], T)} {cq(lam)} "
-           f"{cz(c['const'])} {cz(c['lb'])} {cz(c['ub'])} {out} {coq_obs(before, T)} {coq_obs(after, T)})")
+           f"{cz(c['const'])} {cz(c['lb'])} {cz(c['ub'])} {cbool(c.get('cross_zero'))} "
+           f"{'(Some ' + cq(F(c['lam1'])) + ')' if 'lam1' in c else 'None'} {cbool(c['backend'] == 'obj')} "
+           f"{out} {coq_obs(before, T)} {coq_obs(after, T)})")
     return {"coq": coq, "check_fn": "check_ineq", "features": feats, "py_fail": py_fail,
             "nontrivial": bool(slack) or raised, "observed": {"slack": str(slack), "raised": raised}}
 
